@@ -80,6 +80,45 @@ pub fn faults(r: &mut Rng, b: &[u8], n: usize) -> Vec<Vec<u8>> {
     out
 }
 
+/// layout-aware faults on the top-level container of a valid encoding: an entry's length field is
+/// rewritten to another width AND its payload resized to match (so everything else stays
+/// consistent), or the boundary between two adjacent object keys is moved
+pub fn layout_faults(r: &mut Rng, b: &[u8], n: usize) -> Vec<Vec<u8>> {
+    let mut out = vec![];
+    if b.len() < 8 { return out; }
+    let hdr = u32::from_be_bytes([b[0], b[1], b[2], b[3]]);
+    let (ty, cnt) = (hdr & 0xe000_0000, (hdr & 0x1fff_ffff) as usize);
+    let nent = match ty { 0x8000_0000 => cnt, 0x4000_0000 => 2 * cnt, 0x2000_0000 => 1, _ => return out };
+    if nent == 0 || 4 + 4 * nent > b.len() { return out; }
+    let words: Vec<u32> = (0..nent).map(|i| u32::from_be_bytes([b[4 + 4 * i], b[5 + 4 * i], b[6 + 4 * i], b[7 + 4 * i]])).collect();
+    let lens: Vec<usize> = words.iter().map(|w| (w & 0x0fff_ffff) as usize).collect();
+    let pay0 = 4 + 4 * nent;
+    if pay0 + lens.iter().sum::<usize>() != b.len() { return out; }
+    let offs: Vec<usize> = lens.iter().scan(pay0, |a, l| { let o = *a; *a += l; Some(o) }).collect();
+    for _ in 0..n {
+        let mut x = b.to_vec();
+        if ty == 0x4000_0000 && cnt >= 2 && r.chance(1, 2) {
+            // move the boundary between key j and key j+1 by d bytes
+            let j = r.below(cnt as u64 - 1) as usize;
+            let d = r.range(-2, 2);
+            let (a, c) = (lens[j] as i64 + d, lens[j + 1] as i64 - d);
+            if a < 0 || c < 0 || d == 0 { continue; }
+            x[4 + 4 * j..8 + 4 * j].copy_from_slice(&((words[j] & 0xf000_0000) | a as u32).to_be_bytes());
+            x[8 + 4 * j..12 + 4 * j].copy_from_slice(&((words[j + 1] & 0xf000_0000) | c as u32).to_be_bytes());
+        } else {
+            let i = r.below(nent as u64) as usize;
+            let nl = *r.pick(&[0usize, 1, 2, 3, 4, 5, 7, 8, 9, 10, 15, 16, 17, 31, 32, 33, 64, 65, 129]);
+            let mut pay: Vec<u8> = b[offs[i]..offs[i] + lens[i]].to_vec();
+            let fill = *r.pick(&[0x00u8, 0x01, 0x7f, 0x80, 0xff, 0x61]);
+            pay.resize(nl, fill);
+            x[4 + 4 * i..8 + 4 * i].copy_from_slice(&((words[i] & 0xf000_0000) | nl as u32).to_be_bytes());
+            x.splice(offs[i]..offs[i] + lens[i], pay);
+        }
+        out.push(x);
+    }
+    out
+}
+
 /// a second document derived from the first: mutate one leaf, drop / duplicate / reorder
 /// elements, re-type a number, extend a string, nest one level, or an unrelated one
 pub fn derive(r: &mut Rng, c: &DocCfg, v: &Value<'static>) -> Value<'static> {
@@ -94,10 +133,12 @@ pub fn derive(r: &mut Rng, c: &DocCfg, v: &Value<'static>) -> Value<'static> {
 
 pub fn retype(r: &mut Rng, n: &Number) -> Number {
     match n {
+        Number::UInt64(0) | Number::Int64(0) => if r.chance(1, 2) { Number::Float64(-0.0) } else { Number::Float64(0.0) },
         Number::UInt64(u) if *u <= i64::MAX as u64 => if r.chance(1, 2) { Number::Int64(*u as i64) } else { Number::Float64(*u as f64) },
         Number::Int64(i) if *i >= 0 => if r.chance(1, 2) { Number::UInt64(*i as u64) } else { Number::Float64(*i as f64) },
         Number::Int64(i) => Number::Float64(*i as f64),
         Number::UInt64(u) => Number::Float64(*u as f64),
+        Number::Float64(f) if *f == 0.0 => match r.below(3) { 0 => Number::Float64(-*f), 1 => Number::Int64(0), _ => Number::UInt64(0) },
         Number::Float64(f) => if f.fract() == 0.0 && f.abs() < 9e18 { Number::Int64(*f as i64) } else { Number::Float64(-*f) },
     }
 }
@@ -106,6 +147,8 @@ pub fn mutate(r: &mut Rng, c: &DocCfg, v: &Value<'static>) -> Value<'static> {
     match v {
         Value::Array(vs) => {
             let mut vs = vs.clone();
+            // an array replaced by one of its own elements (the bare-scalar rule must not apply below the top)
+            if !vs.is_empty() && r.chance(1, 9) { return vs[r.below(vs.len() as u64) as usize].clone(); }
             match r.below(7) {
                 0 if !vs.is_empty() => { let i = r.below(vs.len() as u64) as usize; vs.remove(i); }
                 1 if !vs.is_empty() => { let i = r.below(vs.len() as u64) as usize; let x = vs[i].clone(); vs.push(x); }
@@ -127,7 +170,8 @@ pub fn mutate(r: &mut Rng, c: &DocCfg, v: &Value<'static>) -> Value<'static> {
             }
             Value::Object(o)
         }
-        Value::Number(n) => Value::Number(retype(r, n)),
+        Value::Number(n) => if r.chance(1, 8) { Value::Array(vec![v.clone()]) } else { Value::Number(retype(r, n)) },
+        Value::String(_) if r.chance(1, 8) => Value::Array(vec![v.clone()]),
         Value::String(s) => Value::String(std::borrow::Cow::Owned(format!("{}{}", s, r.pick(&["", "a", "\u{1}", "\u{0}", "z"])))),
         Value::Bool(b) => Value::Bool(!b),
         Value::Null => gen_scalar(r, c),
@@ -284,6 +328,19 @@ pub fn gen(prop: &str, tier: &str, seed: u64) -> Out {
                     for _ in 0..16 { let k = r.below(b.len() as u64) as usize; o.push(format!("dec {}", hex(&b[..k]))); o.stat("fault:prefix"); }
                 }
                 for x in faults(&mut r, &b, 12) { o.push(format!("dec {}", hex(&x))); o.stat("fault:mutated"); }
+                for x in layout_faults(&mut r, &b, 6) { o.push(format!("dec {}", hex(&x))); o.stat("fault:layout"); }
+            }
+            // flat documents of numbers and of multi-byte keys: every entry resized / key boundaries moved
+            for _ in 0..scale(tier, 150, 4000) {
+                let v = if r.chance(1, 2) {
+                    Value::Array((0..1 + r.below(4)).map(|_| Value::Number(gen_number(&mut r, true))).collect())
+                } else {
+                    let mut m = std::collections::BTreeMap::new();
+                    for _ in 0..2 + r.below(3) { m.insert(r.pick(&["é", "a", "中", "文", "x", "€", "ab", "😀", "ñu", "", "zß"]).to_string(), gen_scalar(&mut r, &c)); }
+                    Value::Object(m)
+                };
+                let b = v.to_vec();
+                for x in layout_faults(&mut r, &b, 10) { o.push(format!("dec {}", hex(&x))); o.stat("fault:layout"); }
             }
             for _ in 0..scale(tier, 500, 20000) {
                 let n = r.below(24) as usize;
@@ -310,6 +367,11 @@ pub fn gen(prop: &str, tier: &str, seed: u64) -> Out {
                     Value::Array(vs) => {
                         for i in 0..vs.len() + 2 { both(&mut o, format!("getidx {} {}", d, i)); }
                         both(&mut o, format!("getidx {} {}", d, r.next() >> r.below(64)));
+                        // indices that alias small or negative ones after a narrowing cast
+                        let k = r.below(vs.len() as u64 + 1);
+                        for big in [(1u64 << 32) + k, (1u64 << 31) + k, u64::MAX - k, (1u64 << 32) - 1 - k, (1u64 << 63) + k, (1u64 << 16) + k] {
+                            both(&mut o, format!("getidx {} {}", d, big));
+                        }
                     }
                     _ => { both(&mut o, format!("getidx {} {}", d, r.below(3))); }
                 }
@@ -419,6 +481,20 @@ pub fn gen(prop: &str, tier: &str, seed: u64) -> Out {
                 o.doc_stats(&a);
                 let (ha, hb, hc) = (hex(&a.to_vec()), hex(&b.to_vec()), hex(&cc.to_vec()));
                 let mut both = |o: &mut Out, l: String| { o.push(format!("spec:{}", l)); o.push(l); };
+                // the same questions with JSON text in either argument position (tree branch of the function)
+                if (prop == "C04" || prop == "C12") && !crate::gen_text::has_nan(&a) && !crate::gen_text::has_nan(&b) && r.chance(1, 2) {
+                    let opn = if prop == "C04" { "cmp" } else { "contains" };
+                    let mut ta = String::new(); let mut tb = String::new();
+                    crate::gen_text::render_json(&mut r, &a, crate::gen_text::Style::Strict, &mut ta);
+                    crate::gen_text::render_json(&mut r, &b, crate::gen_text::Style::Strict, &mut tb);
+                    let (ta, tb) = (hex(ta.trim_start_matches(' ').as_bytes()), hex(tb.trim_start_matches(' ').as_bytes()));
+                    o.push(format!("t:{} {} {}", opn, ta, tb));
+                    o.push(format!("t:{} {} {}", opn, tb, ta));
+                    o.push(format!("t:{} {} {}", opn, ta, hb));
+                    o.push(format!("t:{} {} {}", opn, ha, tb));
+                    o.push(format!("tj {} {} {} {}", r.next() % 1000000, opn, ha, hb));
+                    o.push(format!("tj {} {} {} {}", r.next() % 1000000, opn, hb, ha));
+                }
                 match prop {
                     "C04" => {
                         both(&mut o, format!("cmp {} {}", ha, hb));
@@ -589,7 +665,7 @@ pub fn gen(prop: &str, tier: &str, seed: u64) -> Out {
             for sub in ["C05", "C06", "C13", "C04", "C12", "C14", "C03", "C08"] {
                 let o2 = gen(sub, tier, seed ^ 0x11);
                 for l in o2.lines {
-                    if l.starts_with("spec:") || l.starts_with("select ") || l.starts_with("pexists") || l.starts_with("pmatch") || l.starts_with("cmplaws") || l.starts_with("containslaws") || l.starts_with("keyorder") || l.starts_with("tostrcheck") || l.starts_with("strf64") || l.starts_with("barr") || l.starts_with("bobj") { continue; }
+                    if l.starts_with("t:") || l.starts_with("tj ") || l.starts_with("spec:") || l.starts_with("select ") || l.starts_with("pexists") || l.starts_with("pmatch") || l.starts_with("cmplaws") || l.starts_with("containslaws") || l.starts_with("keyorder") || l.starts_with("tostrcheck") || l.starts_with("strf64") || l.starts_with("barr") || l.starts_with("bobj") { continue; }
                     if r.chance(if tier == "thorough" { 2 } else { 1 }, 6) {
                         o.push(format!("tj {} {}", r.next() % 1000000, l));
                     }
@@ -637,6 +713,78 @@ pub fn gen(prop: &str, tier: &str, seed: u64) -> Out {
                 if d == "contains" { o.push(format!("tj 1 contains {} {}", hex(&v.to_vec()), hex(&jsonb::parse_value(b"12345678").unwrap().to_vec()))); }
                 else { o.push(format!("tj 1 {} {}", d, hex(&v.to_vec()))); }
                 o.push(format!("t:{} {}", if d == "contains" { "asnum" } else if d == "asu64" { "asnum" } else { d }, hex(t.as_bytes())));
+            }
+        }
+        "C07" => {
+            // chains: arguments are chosen from the CURRENT document, which the generator tracks
+            // by running the real code (only to choose arguments; the comparison is separate)
+            use crate::ops_chain::{parse_op, step};
+            let small = DocCfg { max_depth: 2, max_fanout: 3, nonfinite: false, long_strings: false };
+            let fc = c.clone().finite();
+            for _ in 0..scale(tier, 700, 20000) {
+                let v0 = if r.chance(1, 12) { gen_scalar(&mut r, &fc) } else { gen_value(&mut r, &fc, 0) };
+                o.doc_stats(&v0);
+                let start = v0.to_vec();
+                let mut cur = start.clone();
+                let mut toks: Vec<String> = vec![];
+                let len = 1 + r.below(if tier == "thorough" { 16 } else { 10 });
+                for _ in 0..len {
+                    let v = match jsonb::from_slice(&cur) { Ok(v) => v, Err(_) => break };
+                    if cur.len() > 20000 { break; }
+                    let arg = |r: &mut Rng, want_obj: Option<bool>| -> String {
+                        match r.below(5) {
+                            0 => "S".to_string(),
+                            1 | 2 => format!("K{}", crate::ops_access::show_keypath(&gen_keypath(r, &v))),
+                            _ => {
+                                let w = match want_obj {
+                                    Some(true) => { let mut m = std::collections::BTreeMap::new(); for _ in 0..r.below(4) { m.insert(gen_key(r), gen_value(r, &small, 1)); } Value::Object(m) }
+                                    Some(false) => Value::Array((0..r.below(4)).map(|_| gen_value(r, &small, 1)).collect()),
+                                    None => gen_value(r, &small, 0),
+                                };
+                                format!("L{}", hex(&w.to_vec()))
+                            }
+                        }
+                    };
+                    let keys: Vec<String> = match &v { Value::Object(ob) => ob.keys().cloned().collect(), _ => vec![] };
+                    let some_key = |r: &mut Rng| -> String { if !keys.is_empty() && r.chance(4, 5) { keys[r.below(keys.len() as u64) as usize].clone() } else { gen_key(r) } };
+                    let keylist = |r: &mut Rng| -> String { let n = r.below(4); if n == 0 { "[]".to_string() } else { (0..n).map(|_| hex(some_key(r).as_bytes())).collect::<Vec<_>>().join(";") } };
+                    let n = match &v { Value::Array(a) => a.len() as i64, _ => 1 };
+                    let idx = |r: &mut Rng| -> i64 { match r.below(8) { 0 => n, 1 => -n - 1, 2 => -n, 3 => *r.pick(&[i32::MIN as i64, i32::MAX as i64]), _ => if n > 0 { r.range(-n, n) } else { 0 } } };
+                    let is_obj = matches!(v, Value::Object(_));
+                    let is_arr = matches!(v, Value::Array(_));
+                    let tok = match r.below(22) {
+                        0 | 1 => format!("cat:{}:{}", arg(&mut r, if is_obj { Some(true) } else if is_arr { Some(false) } else { None }), if r.chance(1, 2) { "l" } else { "r" }),
+                        2 => format!("dn:{}", hex(some_key(&mut r).as_bytes())),
+                        3 => format!("di:{}", idx(&mut r)),
+                        4 | 5 => format!("dk:{}", crate::ops_access::show_keypath(&gen_keypath(&mut r, &v))),
+                        6 | 7 => format!("ai:{}:{}", idx(&mut r), arg(&mut r, None)),
+                        8 | 9 => format!("oi:{}:{}:{}", hex(some_key(&mut r).as_bytes()), arg(&mut r, None), r.below(2)),
+                        10 => format!("od:{}", keylist(&mut r)),
+                        11 => format!("op:{}", keylist(&mut r)),
+                        12 => "st".to_string(),
+                        13 => format!("gi:{}", if n > 0 { r.below(n as u64 + 1) } else { 0 }),
+                        14 => format!("gn:{}:{}", hex(some_key(&mut r).as_bytes()), r.below(2)),
+                        15 => format!("gk:{}", crate::ops_access::show_keypath(&gen_keypath(&mut r, &v))),
+                        16 => if r.chance(1, 2) { "ks".to_string() } else { "ds".to_string() },
+                        17 => format!("{}:{}", if r.chance(1, 2) { "in" } else { "ex" }, arg(&mut r, Some(false))),
+                        18 => { let k = r.below(4); if k == 0 { "wa:[]".to_string() } else { format!("wa:{}", (0..k).map(|_| arg(&mut r, None)).collect::<Vec<_>>().join("|")) } }
+                        19 => { let k = r.below(4); if k == 0 { "wo:[]".to_string() } else { format!("wo:{}", (0..k).map(|_| format!("{}={}", hex(gen_key(&mut r).as_bytes()), arg(&mut r, None))).collect::<Vec<_>>().join("|")) } }
+                        20 => format!("sf:{}", hex(crate::gen_text::gen_doc_path(&mut r, &v).as_bytes())),
+                        _ => format!("sa:{}", hex(crate::gen_text::gen_doc_path(&mut r, &v).as_bytes())),
+                    };
+                    o.stat(&format!("chainop:{}", tok.split(':').next().unwrap_or("")));
+                    let next = match parse_op(&tok) {
+                        Ok(Some(op)) => match std::panic::catch_unwind(std::panic::AssertUnwindSafe(|| step(&cur, &op))) { Ok(Ok(Some(n))) => { o.stat("chainstep:changed"); Some(n) } Ok(Ok(None)) => { o.stat("chainstep:refused"); None } _ => None },
+                        _ => None,
+                    };
+                    toks.push(tok);
+                    if let Some(nx) = next { cur = nx; }
+                }
+                o.stat(&format!("chainlen:{}", toks.len()));
+                let line = format!("{} {}", hex(&start), toks.join(" "));
+                o.push(format!("chain {}", line));
+                o.push(format!("spec:chain {}", line));
+                o.push(format!("chaincheck {}", line));
             }
         }
         "C19" => {
